@@ -8,14 +8,25 @@ open PdshVerif.Gen
 
 /-! ## the stream of a tree and what the receiver makes of it -/
 
+/-- the microseconds the sender puts into a `T` record: those of the time stamp, or 0 (code as found) -/
+def sentUsec (ss : Bool) (t : Nat) : Nat := if ss then t % USEC else 0
+
+/-- the `T` record for a node with modification/access time `t`/`a` (microseconds); `ss` = the sender
+variant that transmits the sub-second part -/
+def timesRecord (ss : Bool) (t a : Nat) : Str := tRecord (t / USEC) (sentUsec ss t) (a / USEC) (sentUsec ss a)
+
+/-- the time stamp the receiver gets to see -/
+abbrev sentTime (ss : Bool) (t : Nat) : Time := ⟨((t / USEC : Nat) : Int), ((sentUsec ss t : Nat) : Int)⟩
+
 mutual
 /-- the bytes `pcp_client` sends for one tree under the name `n` when every reply is positive -/
-def treeBytes (p : Bool) (n : Str) : Tree → Str
-  | .file m t a d => (if p then tRecord t a else []) ++ (cRecord m d.length n ++ d ++ [0])
-  | .dir m t a kids => (if p then tRecord t a else []) ++ (dRecord m n ++ (kidsBytes p kids ++ exitFlag))
-def kidsBytes (p : Bool) : List (Str × Tree) → Str
+def treeBytes (p ss : Bool) (n : Str) : Tree → Str
+  | .file m t a d => (if p then timesRecord ss t a else []) ++ (cRecord m d.length n ++ d ++ [0])
+  | .dir m t a kids =>
+    (if p then timesRecord ss t a else []) ++ (dRecord m n ++ (kidsBytes p ss kids ++ exitFlag))
+def kidsBytes (p ss : Bool) : List (Str × Tree) → Str
   | [] => []
-  | (n, k) :: r => treeBytes p n k ++ kidsBytes p r
+  | (n, k) :: r => treeBytes p ss n k ++ kidsBytes p ss r
 end
 
 /-- `utimes` on an existing node -/
@@ -26,16 +37,17 @@ def setMtimeAt (fs : FS) (p : Path) (t : Time) : FS :=
 
 mutual
 /-- the file system after the receiver has taken in one tree under the name `n` in directory `q` -/
-def recvTree (o : Opts) (fs : FS) (q : Path) (n : Str) : Tree → FS
-  | .file m t _ d => (fs.bumpDir q).set (q ++ [n]) (recvFile o m (if o.preserve then some ⟨t, 0⟩ else none) d)
+def recvTree (o : Opts) (ss : Bool) (fs : FS) (q : Path) (n : Str) : Tree → FS
+  | .file m t _ d =>
+    (fs.bumpDir q).set (q ++ [n]) (recvFile o m (if o.preserve then some (sentTime ss t) else none) d)
   | .dir m t _ kids =>
     if o.preserve then
-      setMtimeAt (recvKids o ((fs.bumpDir q).set (q ++ [n]) (recvDirNode o fs q n m)) (q ++ [n]) kids)
-        (q ++ [n]) ⟨t, 0⟩
-    else recvKids o ((fs.bumpDir q).set (q ++ [n]) (recvDirNode o fs q n m)) (q ++ [n]) kids
-def recvKids (o : Opts) (fs : FS) (q : Path) : List (Str × Tree) → FS
+      setMtimeAt (recvKids o ss ((fs.bumpDir q).set (q ++ [n]) (recvDirNode o fs q n m)) (q ++ [n]) kids)
+        (q ++ [n]) (sentTime ss t)
+    else recvKids o ss ((fs.bumpDir q).set (q ++ [n]) (recvDirNode o fs q n m)) (q ++ [n]) kids
+def recvKids (o : Opts) (ss : Bool) (fs : FS) (q : Path) : List (Str × Tree) → FS
   | [] => fs
-  | (n, k) :: r => recvKids o (recvTree o fs q n k) q r
+  | (n, k) :: r => recvKids o ss (recvTree o ss fs q n k) q r
 end
 
 mutual
@@ -63,34 +75,34 @@ theorem prefix_snoc_ne {q x : Path} {n : Str} (h : (q ++ [n]) <+: x) : x ≠ q :
   omega
 
 mutual
-theorem recvTree_other (o : Opts) (fs : FS) (q : Path) (n : Str) (t : Tree) (x : Path) (hq : x ≠ q)
-    (hx : ¬ (q ++ [n]) <+: x) : recvTree o fs q n t x = fs x := by
+theorem recvTree_other (o : Opts) (ss : Bool) (fs : FS) (q : Path) (n : Str) (t : Tree) (x : Path) (hq : x ≠ q)
+    (hx : ¬ (q ++ [n]) <+: x) : recvTree o ss fs q n t x = fs x := by
   have hne : x ≠ q ++ [n] := fun e => hx (e ▸ List.prefix_refl _)
   cases t with
   | file m t a d =>
     simp only [recvTree]
     rw [set_other _ _ _ _ hne, bumpDir_other _ _ _ hq]
   | dir m t a kids =>
-    have hk : recvKids o ((fs.bumpDir q).set (q ++ [n]) (recvDirNode o fs q n m)) (q ++ [n]) kids x = fs x := by
-      rw [recvKids_other o _ (q ++ [n]) kids x hne (fun n' _ _ hp => hx ((List.prefix_append _ _).trans hp))]
+    have hk : recvKids o ss ((fs.bumpDir q).set (q ++ [n]) (recvDirNode o fs q n m)) (q ++ [n]) kids x = fs x := by
+      rw [recvKids_other o ss _ (q ++ [n]) kids x hne (fun n' _ _ hp => hx ((List.prefix_append _ _).trans hp))]
       rw [set_other _ _ _ _ hne, bumpDir_other _ _ _ hq]
     simp only [recvTree]
-    generalize recvKids o ((fs.bumpDir q).set (q ++ [n]) (recvDirNode o fs q n m)) (q ++ [n]) kids = g at hk ⊢
+    generalize recvKids o ss ((fs.bumpDir q).set (q ++ [n]) (recvDirNode o fs q n m)) (q ++ [n]) kids = g at hk ⊢
     split
     · unfold setMtimeAt
       cases hm : g (q ++ [n]) with
       | none => exact hk
       | some nd => simp only []; rw [set_other _ _ _ _ hne, hk]
     · exact hk
-theorem recvKids_other (o : Opts) (fs : FS) (q : Path) (kids : List (Str × Tree)) (x : Path) (hq : x ≠ q)
-    (hx : ∀ n k, (n, k) ∈ kids → ¬ (q ++ [n]) <+: x) : recvKids o fs q kids x = fs x := by
+theorem recvKids_other (o : Opts) (ss : Bool) (fs : FS) (q : Path) (kids : List (Str × Tree)) (x : Path) (hq : x ≠ q)
+    (hx : ∀ n k, (n, k) ∈ kids → ¬ (q ++ [n]) <+: x) : recvKids o ss fs q kids x = fs x := by
   cases kids with
   | nil => rfl
   | cons nk r =>
     obtain ⟨n, k⟩ := nk
     simp only [recvKids]
-    rw [recvKids_other o _ q r x hq (fun n' k' hm => hx n' k' (List.mem_cons_of_mem _ hm)),
-      recvTree_other o fs q n k x hq (hx n k List.mem_cons_self)]
+    rw [recvKids_other o ss _ q r x hq (fun n' k' hm => hx n' k' (List.mem_cons_of_mem _ hm)),
+      recvTree_other o ss fs q n k x hq (hx n k List.mem_cons_self)]
 end
 
 /-! ## the invariant at a record boundary inside a directory -/
@@ -113,6 +125,19 @@ structure Fed (o : Opts) (st st' : St) (f : Frame) (rest : List Frame) (q : Path
 
 theorem usecOk_zero (s : Int) : usecOk ⟨s, 0⟩ = true := by simp [usecOk]
 
+theorem sentUsec_lt (ss : Bool) (t : Nat) : sentUsec ss t < 1000000 := by
+  unfold sentUsec USEC; split <;> omega
+
+theorem usecOk_sent (ss : Bool) (t : Nat) : usecOk (sentTime ss t) = true := by
+  have h := sentUsec_lt ss t
+  simp [usecOk]
+  omega
+
+theorem sent_lt (ss : Bool) {t : Nat} (h : t < 2 ^ 63) : t / USEC < 2 ^ 63 ∧ sentUsec ss t < 2 ^ 63 := by
+  have h1 := sentUsec_lt ss t
+  have h2 : t / USEC ≤ t := Nat.div_le_self _ _
+  omega
+
 theorem isDir_node {fs : FS} {p : Path} (h : fs.isDir p = true) : ∃ m t, fs p = some (.dir m t) := by
   unfold FS.isDir at h
   cases hf : fs p with
@@ -126,10 +151,10 @@ variable {o : Opts}
 
 mutual
 /-- **Round trip of one tree.** -/
-theorem feed_tree (hc : CntOk o) (t : Tree) (n : Str) (budget : Nat) (st : St) (f : Frame) (rest : List Frame)
+theorem feed_tree (hc : CntOk o) (hnf : o.fsize = none) (ss : Bool) (t : Tree) (n : Str) (budget : Nat) (st : St) (f : Frame) (rest : List Frame)
     (q : Path) (h : AtDir o st f rest q) (hns : f.setimes = false) (hb : f.targ.length + budget < PCP_PATH_MAX)
     (hg : GoodTree budget n t) (hfresh : FreshBelow st.fs (q ++ [n])) :
-    Fed o st ((treeBytes o.preserve n t).foldl (step o) st) f rest q (recvTree o st.fs q n t) := by
+    Fed o st ((treeBytes o.preserve ss n t).foldl (step o) st) f rest q (recvTree o ss st.fs q n t) := by
   cases t with
   | file m t a d =>
     simp only [GoodTree] at hg
@@ -138,21 +163,21 @@ theorem feed_tree (hc : CntOk o) (t : Tree) (n : Str) (budget : Nat) (st : St) (
     simp only [treeBytes, recvTree]
     by_cases hp : o.preserve = true
     · -- `T` record, then the file
-      simp only [hp, ↓reduceIte]
-      rw [List.foldl_append, feed_T h.phase h.stack t a ht ha]
-      have hC := feed_C hc
+      simp only [hp, ↓reduceIte, timesRecord]
+      rw [List.foldl_append, feed_T h.phase h.stack (t / USEC) (sentUsec ss t) (a / USEC) (sentUsec ss a) (sent_lt ss ht).1 (sent_lt ss ht).2 (sent_lt ss ha).1 (sent_lt ss ha).2]
+      have hC := feed_C hc hnf
         (st := { st with out := .ack :: st.out,
-                         stack := { f with setimes := true, mt := ⟨t, 0⟩, atm := ⟨a, 0⟩ } :: rest, phase := .start })
-        (f := { f with setimes := true, mt := ⟨t, 0⟩, atm := ⟨a, 0⟩ }) (rest := rest) (q := q) rfl rfl h.isdir
-        h.res h.dir hn hfr (by simp only; omega) m d hd ⟨usecOk_zero _, usecOk_zero _⟩
+                         stack := { f with setimes := true, mt := sentTime ss t, atm := sentTime ss a } :: rest, phase := .start })
+        (f := { f with setimes := true, mt := sentTime ss t, atm := sentTime ss a }) (rest := rest) (q := q) rfl rfl h.isdir
+        h.res h.dir hn hfr (by simp only; omega) m d hd ⟨usecOk_sent _ _, usecOk_sent _ _⟩
       rw [hC]
-      have hmono : DirMono st.fs ((st.fs.bumpDir q).set (q ++ [n]) (recvFile o m (some ⟨t, 0⟩) d)) :=
+      have hmono : DirMono st.fs ((st.fs.bumpDir q).set (q ++ [n]) (recvFile o m (some (sentTime ss t)) d)) :=
         (dirMono_bumpDir _ _).trans (dirMono_set_fresh _ (bumpDir_none _ _ _ hfr))
       refine ⟨⟨_, ⟨rfl, rfl, h.isdir, resolve_mono hmono h.res, hmono _ h.dir, verifyOk_mono hmono h.ver,
-        ⟨usecOk_zero _, usecOk_zero _⟩⟩, rfl, rfl⟩, rfl, hmono, ⟨[.ack, .ack, .ack], rfl, by simp⟩⟩
+        ⟨usecOk_sent _ _, usecOk_sent _ _⟩⟩, rfl, rfl⟩, rfl, hmono, ⟨[.ack, .ack, .ack], rfl, by simp⟩⟩
     · have hp' : o.preserve = false := by simpa using hp
       simp only [hp', Bool.false_eq_true, ↓reduceIte, List.nil_append]
-      rw [feed_C hc h.phase h.stack h.isdir h.res h.dir hn hfr (by omega) m d hd h.us]
+      rw [feed_C hc hnf h.phase h.stack h.isdir h.res h.dir hn hfr (by omega) m d hd h.us]
       simp only [hns, Bool.false_eq_true, ↓reduceIte]
       have hmono : DirMono st.fs ((st.fs.bumpDir q).set (q ++ [n]) (recvFile o m none d)) :=
         (dirMono_bumpDir _ _).trans (dirMono_set_fresh _ (bumpDir_none _ _ _ hfr))
@@ -165,16 +190,16 @@ theorem feed_tree (hc : CntOk o) (t : Tree) (n : Str) (budget : Nat) (st : St) (
     have htne : f.targ ≠ [] := (resolve_walkOk h.res).1
     -- the state and the parent frame after the optional `T` record
     obtain ⟨st1, f1, hst1, hf1t, hf1d, hf1u, hf1s, hst1fs, hst1ph, hst1st, hst1out⟩ :
-        ∃ st1 f1, (if o.preserve then tRecord t a else []).foldl (step o) st = st1 ∧ f1.targ = f.targ ∧
+        ∃ st1 f1, (if o.preserve then timesRecord ss t a else []).foldl (step o) st = st1 ∧ f1.targ = f.targ ∧
           f1.targisdir = true ∧ (usecOk f1.atm = true ∧ usecOk f1.mt = true) ∧
-          (f1.setimes = o.preserve ∧ (o.preserve = true → f1.mt = ⟨t, 0⟩)) ∧ st1.fs = st.fs ∧
+          (f1.setimes = o.preserve ∧ (o.preserve = true → f1.mt = sentTime ss t)) ∧ st1.fs = st.fs ∧
           st1.phase = .start ∧ st1.stack = f1 :: rest ∧
           ∃ acks, st1.out = acks ++ st.out ∧ ∀ r ∈ acks, r = Reply.ack := by
       by_cases hp : o.preserve = true
-      · simp only [hp, ↓reduceIte]
-        rw [feed_T h.phase h.stack t a ht ha]
-        exact ⟨_, { f with setimes := true, mt := ⟨t, 0⟩, atm := ⟨a, 0⟩ }, rfl, rfl, h.isdir,
-          ⟨usecOk_zero _, usecOk_zero _⟩, ⟨rfl, fun _ => rfl⟩, rfl, rfl, rfl, [.ack], rfl, by simp⟩
+      · simp only [hp, ↓reduceIte, timesRecord]
+        rw [feed_T h.phase h.stack (t / USEC) (sentUsec ss t) (a / USEC) (sentUsec ss a) (sent_lt ss ht).1 (sent_lt ss ht).2 (sent_lt ss ha).1 (sent_lt ss ha).2]
+        exact ⟨_, { f with setimes := true, mt := sentTime ss t, atm := sentTime ss a }, rfl, rfl, h.isdir,
+          ⟨usecOk_sent _ _, usecOk_sent _ _⟩, ⟨rfl, fun _ => rfl⟩, rfl, rfl, rfl, [.ack], rfl, by simp⟩
       · have hp' : o.preserve = false := by simpa using hp
         simp only [hp', Bool.false_eq_true, ↓reduceIte, List.foldl_nil]
         exact ⟨_, f, rfl, rfl, h.isdir, h.us, ⟨hns, fun e => by cases e⟩, rfl, h.phase, h.stack, [], rfl, by simp⟩
@@ -202,18 +227,18 @@ theorem feed_tree (hc : CntOk o) (t : Tree) (n : Str) (budget : Nat) (st : St) (
       have hx1 : (q ++ [n]) <+: x := (List.prefix_append _ _).trans hx
       rw [hfs2, set_other _ _ _ _ (prefix_snoc_ne hx), bumpDir_other _ _ _ (prefix_snoc_ne hx1)]
       exact hfresh x hx1
-    have hK := feed_kids hc kids (budget - (n.length + 1)) st2 chf (f1 :: rest) (q ++ [n]) hat2 rfl
+    have hK := feed_kids hc hnf ss kids (budget - (n.length + 1)) st2 chf (f1 :: rest) (q ++ [n]) hat2 rfl
       (by
         show (joinName f.targ n).length + _ < _
         rw [joinName_cons_length _ _ htne]; omega) hk hkfresh
-    generalize hst3 : (kidsBytes o.preserve kids).foldl (step o) st2 = st3 at hK
+    generalize hst3 : (kidsBytes o.preserve ss kids).foldl (step o) st2 = st3 at hK
     obtain ⟨⟨f3, hat3, hf3s, hf3t⟩, hfs3, hmono3, acks3, hacks3, hacks3a⟩ := hK
     -- the `E` record
     obtain ⟨mode3, tm3, hnode3⟩ := isDir_node hat3.dir
     have hE := feed_E (o := o) (st := st3) (ch := f3) (f := f1) (rest := rest) (q' := q ++ [n]) hat3.phase
       hat3.stack hat3.res hnode3 (by rw [hf3t]; exact trailingSlash_join _ hn.plain) hf1u
     -- assemble
-    have hbytes : (treeBytes o.preserve n (.dir m t a kids)).foldl (step o) st = exitFlag.foldl (step o) st3 := by
+    have hbytes : (treeBytes o.preserve ss n (.dir m t a kids)).foldl (step o) st = exitFlag.foldl (step o) st3 := by
       simp only [treeBytes, List.foldl_append]
       rw [hst1, hst2, hst3]
     rw [hbytes, hE]
@@ -250,11 +275,11 @@ theorem feed_tree (hc : CntOk o) (t : Tree) (n : Str) (budget : Nat) (st : St) (
         · rfl
         · exact hacks1a r hr
 /-- **Round trip of a list of sibling trees.** -/
-theorem feed_kids (hc : CntOk o) (kids : List (Str × Tree)) (budget : Nat) (st : St) (f : Frame)
+theorem feed_kids (hc : CntOk o) (hnf : o.fsize = none) (ss : Bool) (kids : List (Str × Tree)) (budget : Nat) (st : St) (f : Frame)
     (rest : List Frame) (q : Path) (h : AtDir o st f rest q) (hns : f.setimes = false)
     (hb : f.targ.length + budget < PCP_PATH_MAX) (hg : GoodKids budget kids)
     (hfresh : ∀ n k, (n, k) ∈ kids → FreshBelow st.fs (q ++ [n])) :
-    Fed o st ((kidsBytes o.preserve kids).foldl (step o) st) f rest q (recvKids o st.fs q kids) := by
+    Fed o st ((kidsBytes o.preserve ss kids).foldl (step o) st) f rest q (recvKids o ss st.fs q kids) := by
   cases kids with
   | nil =>
     simp only [kidsBytes, List.foldl_nil, recvKids]
@@ -264,12 +289,12 @@ theorem feed_kids (hc : CntOk o) (kids : List (Str × Tree)) (budget : Nat) (st 
     simp only [GoodKids] at hg
     obtain ⟨hgk, hdist, hgr⟩ := hg
     simp only [kidsBytes, List.foldl_append, recvKids]
-    have h1 := feed_tree hc k n budget st f rest q h hns hb hgk (hfresh n k List.mem_cons_self)
-    generalize (treeBytes o.preserve n k).foldl (step o) st = st1 at h1
+    have h1 := feed_tree hc hnf ss k n budget st f rest q h hns hb hgk (hfresh n k List.mem_cons_self)
+    generalize (treeBytes o.preserve ss n k).foldl (step o) st = st1 at h1
     obtain ⟨⟨f1, hat1, hf1s, hf1t⟩, hfs1, hmono1, acks1, hacks1, hacks1a⟩ := h1
     have hfresh1 : ∀ n' k', (n', k') ∈ r → FreshBelow st1.fs (q ++ [n']) := by
       intro n' k' hm x hx
-      rw [hfs1, recvTree_other o st.fs q n k x (prefix_snoc_ne hx)]
+      rw [hfs1, recvTree_other o ss st.fs q n k x (prefix_snoc_ne hx)]
       · exact hfresh n' k' (List.mem_cons_of_mem _ hm) x hx
       · intro hx2
         -- two prefixes of `x` of the same length are equal
@@ -279,8 +304,8 @@ theorem feed_kids (hc : CntOk o) (kids : List (Str × Tree)) (budget : Nat) (st 
         have := List.append_cancel_left e2
         simp at this
         exact hne this
-    have h2 := feed_kids hc r budget st1 f1 rest q hat1 hf1s (by rw [hf1t]; exact hb) hgr hfresh1
-    generalize (kidsBytes o.preserve r).foldl (step o) st1 = st2 at h2
+    have h2 := feed_kids hc hnf ss r budget st1 f1 rest q hat1 hf1s (by rw [hf1t]; exact hb) hgr hfresh1
+    generalize (kidsBytes o.preserve ss r).foldl (step o) st1 = st2 at h2
     obtain ⟨⟨f2, hat2, hf2s, hf2t⟩, hfs2, hmono2, acks2, hacks2, hacks2a⟩ := h2
     refine ⟨⟨f2, hat2, hf2s, hf2t.trans hf1t⟩, by rw [hfs2, hfs1], hmono1.trans hmono2, acks2 ++ acks1, ?_, ?_⟩
     · rw [hacks2, hacks1, List.append_assoc]
@@ -326,21 +351,25 @@ def KidListOk : List (Str × Tree) → Prop
 end
 
 mutual
-theorem send_tree (so : SOpts) (path : Str) (user : Bool) (t : Tree) (hp : path ≠ sentinelName)
-    (hk : KidNamesOk t) :
-    (expandTree path user t).flatMap (sendEntry so) = treeBytes so.preserve (sentName so path user) t := by
+theorem send_tree (so : SOpts) (path : Str) (user : Bool) (t : Tree)
+    (hp : path ≠ sentinelName ∨ (so.sentinelFix = true ∧ user = true)) (hk : KidNamesOk t) :
+    (expandTree path user t).flatMap (sendEntry so) = treeBytes so.preserve so.subsec (sentName so path user) t := by
+  have hcond : (decide (path = sentinelName) && !(so.sentinelFix && user)) = false := by
+    rcases hp with h | ⟨h1, h2⟩
+    · simp [h]
+    · simp [h1, h2]
   cases t with
   | file m t a d =>
-    simp only [expandTree, List.flatMap_cons, List.flatMap_nil, List.append_nil, sendEntry, hp, ↓reduceIte,
-      treeBytes, sentName, Bool.false_eq_true]
+    simp only [expandTree, List.flatMap_cons, List.flatMap_nil, List.append_nil, sendEntry, hcond, ↓reduceIte,
+      treeBytes, sentName, Bool.false_eq_true, timesRecord, sentUsec]
   | dir m t a kids =>
     simp only [KidNamesOk] at hk
     simp only [expandTree, List.flatMap_cons, List.flatMap_append, List.flatMap_nil, List.append_nil, sendEntry,
-      hp, ↓reduceIte, treeBytes, sentName]
+      hcond, ↓reduceIte, treeBytes, sentName, Bool.false_eq_true, timesRecord, sentUsec]
     rw [send_kids so path kids hk]
     simp only [List.append_assoc]
 theorem send_kids (so : SOpts) (path : Str) (kids : List (Str × Tree)) (hk : KidListOk kids) :
-    (expandKids path kids).flatMap (sendEntry so) = kidsBytes so.preserve kids := by
+    (expandKids path kids).flatMap (sendEntry so) = kidsBytes so.preserve so.subsec kids := by
   cases kids with
   | nil => rfl
   | cons nk r =>
@@ -348,7 +377,7 @@ theorem send_kids (so : SOpts) (path : Str) (kids : List (Str × Tree)) (hk : Ki
     simp only [KidListOk] at hk
     obtain ⟨hn, hkk, hkr⟩ := hk
     simp only [expandKids, List.flatMap_append, kidsBytes]
-    rw [send_tree so (path ++ cSlash :: n) false k (join_ne_sentinel _ _) hkk, send_kids so path r hkr]
+    rw [send_tree so (path ++ cSlash :: n) false k (Or.inl (join_ne_sentinel _ _)) hkk, send_kids so path r hkr]
     simp only [sentName, Bool.and_false, Bool.false_eq_true, ↓reduceIte, xbasename_join path n hn]
 end
 
@@ -357,13 +386,14 @@ def namedSrcs (so : SOpts) : List (Str × Tree) → List (Str × Tree)
   | [] => []
   | (path, t) :: r => (sentName so path true, t) :: namedSrcs so r
 
-/-- what the user may name: not the sentinel, trees whose entry names have no `/` -/
-def SrcsOk : List (Str × Tree) → Prop
+/-- what the user may name: not the sentinel (unless the sender is repaired), trees whose entry names
+have no `/` -/
+def SrcsOk (so : SOpts) : List (Str × Tree) → Prop
   | [] => True
-  | (path, t) :: r => path ≠ sentinelName ∧ KidNamesOk t ∧ SrcsOk r
+  | (path, t) :: r => (path ≠ sentinelName ∨ so.sentinelFix = true) ∧ KidNamesOk t ∧ SrcsOk so r
 
-theorem send_eq (so : SOpts) (srcs : List (Str × Tree)) (h : SrcsOk srcs) :
-    send so srcs = kidsBytes so.preserve (namedSrcs so srcs) := by
+theorem send_eq (so : SOpts) (srcs : List (Str × Tree)) (h : SrcsOk so srcs) :
+    send so srcs = kidsBytes so.preserve so.subsec (namedSrcs so srcs) := by
   unfold send
   induction srcs with
   | nil => rfl
@@ -371,6 +401,6 @@ theorem send_eq (so : SOpts) (srcs : List (Str × Tree)) (h : SrcsOk srcs) :
     obtain ⟨path, t⟩ := pt
     simp only [SrcsOk] at h
     simp only [expandAll, List.flatMap_append, namedSrcs, kidsBytes]
-    rw [send_tree so path true t h.1 h.2.1, ih h.2.2]
+    rw [send_tree so path true t (h.1.imp id (fun e => ⟨e, rfl⟩)) h.2.1, ih h.2.2]
 
 end PdshVerif.Pcp
